@@ -203,16 +203,17 @@ var matcherPool = [][]string{
 }
 
 // matcherSets yields every match[] list made of one selector with one matcher, two selectors, or one selector
-// with two matchers, the values ranging over all strings of length <= 2 over the characters the rendering
+// with two matchers, the values ranging over all strings of length <= 2 (<= pairLen in the two-matcher forms) over the characters the rendering
 // of [][]*labels.Matcher uses (quote, its escape character, the blank between matchers, the bracket between
 // sets) and the key's own separators.
-func matcherSets() [][]string {
+func matcherSets(pairLen int) [][]string {
 	vals := stringsOver("b\"\\ ]:,", 0, 2)
 	sel := func(v string) string { return "{a=" + strconv.Quote(v) + "}" }
 	var out [][]string
 	for _, v := range vals {
 		out = append(out, []string{sel(v)})
 	}
+	vals = stringsOver("b\"\\ ]:,", 0, pairLen)
 	for _, v := range vals {
 		for _, w := range vals {
 			out = append(out, []string{sel(v), "{c=" + strconv.Quote(w) + "}"})
@@ -266,13 +267,13 @@ func gen(r *vlib.R) iter.Seq[Case] {
 		}
 	}
 	queriesFew := []string{"a", "a:a"}
-	replicaSets := [][]string{nil, {"a"}, {"b"}, {"a", "b"}, {"b", "a"}, {"a,b"}, {"a:"}, {`a\`}, {`a\`, "b"}, {`a\,b`}, {""}}
+	replicaSets := [][]string{nil, {"a"}, {"b"}, {"a", "b"}, {"b", "a"}, {"a,b"}, {"a:"}, {`a\`, "b"}, {""}}
 	replicaAll := replicaLists()
 	shards := [][2]int64{{0, 0}, {2, 0}, {2, 1}, {12, 1}, {1, 21}}
 	msrs := []string{"", "299999ms", "300000ms", "3599999ms", "3600000ms", "auto"}
 	labelNames := stringsOver(labelAlpha, 0, 2)
 	engines := stringsOver(engineAlpha, 0, 2)
-	matchersAll := matcherSets()
+	matchersAll := append(matcherPool[8:len(matcherPool):len(matcherPool)], matcherSets(vlib.Pick(r, 1, 2))...)
 	r.Set("parseable_queries", len(queries))
 	r.Set("tenants", len(tenantsAll))
 	r.Set("replica_label_lists", len(replicaAll))
@@ -283,7 +284,7 @@ func gen(r *vlib.R) iter.Seq[Case] {
 			for _, q := range queries {
 				for _, st := range []int64{1000, 60000} {
 					for _, sh := range shards[:3] {
-						for _, rl := range [][]string{nil, {"a"}, {"a", "b"}, {"a,b"}, {`a\`, "b"}} {
+						for _, rl := range [][]string{nil, {"a"}, {"a", "b"}, {"a,b"}} {
 							if !yield(Case{A: Req{Kind: 0, Tenant: tn, Query: q, StepMs: st, Shard: sh, Replicas: rl}}) {
 								return
 							}
@@ -317,7 +318,7 @@ func gen(r *vlib.R) iter.Seq[Case] {
 		}
 		// family C: labels / label values; family D: series
 		for _, tn := range tenantsAll {
-			for _, m := range matcherPool {
+			for _, m := range matcherPool[:8] { // the others (escape character in a value) are used in family M
 				for p := 0; p < 2; p++ {
 					for _, l := range labelNames {
 						if !yield(Case{A: Req{Kind: 1, Tenant: tn, Label: l, Matchers: m, Partial: p == 1}}) {
@@ -375,11 +376,11 @@ func TestCheck(t *testing.T) {
 	r := vlib.New(t, "C43")
 	defer r.Finish()
 	r.Rule("A: tenants (len<=2, thorough 3, over {a : , | - 1 \\}, those accepted by the resolver) x all parseable PromQL strings len<=3 over {a : 1 - { } \" , \\ `} x step x shard x replica sets; " +
-		"B: 2 tenants x 2 queries x full product step x max_source_resolution (each side of 5m/1h, auto) x shard x lookback x engine x 11 replica sets x partial x analyze; " +
-		"C: tenants x label names over {a : , \\} len<=2 x 12 matcher sets x partial; D: series: tenants x matcher sets x replica sets x partial; " +
+		"B: 2 tenants x 2 queries x full product step x max_source_resolution (each side of 5m/1h, auto) x shard x lookback x engine x 9 replica sets (orders, \"a,b\", \"a:\", [a\\ b], the empty label) x partial x analyze; " +
+		"C: tenants x label names over {a : , \\} len<=2 x 8 matcher sets x partial; D: series: tenants x matcher sets x replica sets x partial; " +
 		"R: every list of <=2 replica labels, each of length 0..3 over {a b : , \\}, on a range and on a series request; " +
 		"E: engine as free text over {a : , \\} len<=2 x queries over {a :} x replica sets x partial x analyze; " +
-		"M: matcher lists (1 selector, 2 selectors, 1 selector with 2 matchers) with values len<=2 over {b \" \\ blank ] : ,} on label names / label values / series. " +
+		"M: matcher lists (1 selector, 2 selectors, 1 selector with 2 matchers) with values len<=2 (quick: <=1 in the two-matcher forms) over {b \" \\ blank ] : ,}, plus 4 hand-written imitations, on label names / label values / series. " +
 		"All keys in one table. non-trivial = distinct requests whose tenant, query, label name, engine, a matcher or a replica label contains a separator or escape character")
 	r.Assume("tenant = value of the tenant header as injected by cmd/thanos (extractOrgId), validated by the real tenant resolver",
 		"outside family E the engine is restricted to the values a querier accepts (\"\", prometheus, thanos); shard_info By/Labels of a client-supplied shard_info are not varied",
